@@ -22,7 +22,7 @@ def counts : List (String × String × Nat) :=
    ("src/handlers/hunk_header.rs", "unwrap", 3),
    ("src/handlers/hunk_header.rs", "index", 4),
    ("src/handlers/merge_conflict.rs", "fatal", 1),
-   ("src/handlers/merge_conflict.rs", "index", 11),
+   ("src/handlers/merge_conflict.rs", "index", 12),
    ("src/handlers/submodule.rs", "unwrap", 2),
    ("src/paint.rs", "unwrap", 8),
    ("src/paint.rs", "panic", 2),
